@@ -274,11 +274,13 @@ impl<'a, T> ChordsV2<'a, T> {
         self.ticks_until_next_state_change = 0;
         self.prev_active_layer = active_layer;
         debug_assert!(self.queue.capacity() < 255);
-        self.prev_queue_len = self.queue.len() as u8;
 
         self.drain_virtual_keys(drainq);
         self.drain_releases(drainq);
         self.process_presses(active_layer);
+        // Remember the length after events have left the queue. With the length from
+        // before, events that arrive next could restore it and would then be skipped.
+        self.prev_queue_len = self.queue.len() as u8;
     }
 
     fn drain_virtual_keys(&mut self, drainq: &mut DrainQueue) {
@@ -527,6 +529,8 @@ impl<'a, T> ChordsV2<'a, T> {
 
         // Clear presses from the queue if they were consumed by a chord.
         if self.active_chords.len() > prev_active_chords_len {
+            // What remains in the queue is no longer waiting for this chord's timeout.
+            self.ticks_until_next_state_change = 0;
             self.queue.retain(|qd| match qd.event {
                 Event::Press(_, j) => !accumulated_presses.contains(&j),
                 _ => true,
